@@ -5,7 +5,7 @@
 ID="$1"; SRC="$2"
 WT=/tmp/confirm-$ID
 export CARGO_NET_OFFLINE=true
-export CARGO_TARGET_DIR=/tmp/confirm-target
+export CARGO_TARGET_DIR="${CONFIRM_TARGET:-/tmp/confirm-target}"
 git -C /repo worktree remove --force $WT 2>/dev/null
 git -C /repo worktree add -q --detach $WT HEAD || exit 2
 cd $WT || exit 2
